@@ -85,6 +85,19 @@ def _get_sizing(vars, sizing, method, optimal_size=None):
 
         return signed, n_word, n_int, n_frac
 
+def _raw_vals(x, y, n_bits):
+    """
+    Raw (integer) values of `x` and `y` in a data type that holds an intermediate result of `n_bits` bits exactly:
+    int64 while it fits, Python integers (object arrays) otherwise. This avoids silent wrap-around modulo 2**64 and the
+    promotion of mixed int64/uint64 operands to float64.
+    """
+    x_val, y_val = np.asarray(x.val), np.asarray(y.val)
+    if x_val.dtype.kind == 'c' or y_val.dtype.kind == 'c':
+        return x.val, y.val
+    if n_bits >= _n_word_max - 1 or x_val.dtype == object or y_val.dtype == object:
+        return x_val.astype(object), y_val.astype(object)
+    return x_val.astype(np.int64), y_val.astype(np.int64)
+
 def _function_over_one_var(repr_func, raw_func, x, out=None, out_like=None, sizing='optimal', method='raw', optimal_size=None, **kwargs):
     if not isinstance(x, Fxp):
         x = Fxp(x)
@@ -315,8 +328,9 @@ def add(x, y, out=None, out_like=None, sizing='optimal', method='raw', **kwargs)
     """
     """
     def _add_raw(x, y, n_frac):
-        precision_cast = (lambda m: np.array(m, dtype=object)) if n_frac >= _n_word_max else (lambda m: m)
-        return x.val * precision_cast(2**(n_frac - x.n_frac)) + y.val * precision_cast(2**(n_frac - y.n_frac))
+        x_shift, y_shift = n_frac - x.n_frac, n_frac - y.n_frac
+        x_val, y_val = _raw_vals(x, y, max(x.n_word + max(x_shift, 0), y.n_word + max(y_shift, 0)) + 1)
+        return x_val * 2**x_shift + y_val * 2**y_shift
 
     if not isinstance(x, Fxp):
         x = Fxp(x)
@@ -336,8 +350,9 @@ def sub(x, y, out=None, out_like=None, sizing='optimal', method='raw', **kwargs)
     """
     """
     def _sub_raw(x, y, n_frac):
-        precision_cast = (lambda m: np.array(m, dtype=object)) if n_frac >= _n_word_max else (lambda m: m)
-        return x.val * precision_cast(2**(n_frac - x.n_frac)) - y.val * precision_cast(2**(n_frac - y.n_frac))
+        x_shift, y_shift = n_frac - x.n_frac, n_frac - y.n_frac
+        x_val, y_val = _raw_vals(x, y, max(x.n_word + max(x_shift, 0), y.n_word + max(y_shift, 0)) + 1)
+        return x_val * 2**x_shift - y_val * 2**y_shift
 
     if not isinstance(x, Fxp):
         x = Fxp(x)
@@ -357,9 +372,9 @@ def mul(x, y, out=None, out_like=None, sizing='optimal', method='raw', **kwargs)
     """
     """
     def _mul_raw(x, y, n_frac):
-        precision_cast = (lambda m: np.array(m, dtype=object)) if n_frac >= _n_word_max else (lambda m: m)
-        raw_cast = (lambda m: np.array(m, dtype=object)) if (x.n_word + y.n_word) >= _n_word_max else (lambda m: m)
-        return raw_cast(x.val) * raw_cast(y.val) * precision_cast(2**(n_frac - x.n_frac - y.n_frac))
+        z_shift = n_frac - x.n_frac - y.n_frac
+        x_val, y_val = _raw_vals(x, y, x.n_word + y.n_word + max(z_shift, 0))
+        return x_val * y_val * 2**z_shift
 
     if not isinstance(x, Fxp):
         x = Fxp(x)
